@@ -23,6 +23,7 @@ RULE = (
     "history: 3-14 ops of do/undo/redo/reopen on a saved-history project - non-trivial = a reopen with >=2 history entries "
     "of >=2 kinds followed by an undo or redo. objectdb: modules with calls, analysed, reopened - non-trivial = >=1 stored "
     "call info. distinct by case hash"
+    "; histories also clear the history or undo with drop=True between sessions; keys include numeric-but-not-digit strings"
 )
 ASSUMPTIONS = [
     "history trees are UTF-8/LF (C16 owns byte-exactness)",
